@@ -464,3 +464,65 @@ def nested_table(match, prefix=(), env=None):
             else:
                 rows.append((key, g, summarize_bool(body, e2)))
     return rows
+
+
+def _children(n):
+    for k, v in n.items():
+        if isinstance(v, dict):
+            if "k" in v:
+                yield k, v
+            else:
+                for kk, vv in v.items():
+                    if isinstance(vv, dict) and "k" in vv:
+                        yield k + "." + kk, vv
+        elif isinstance(v, list):
+            for x in v:
+                if isinstance(x, dict):
+                    if "k" in x:
+                        yield k, x
+                    else:
+                        for kk, vv in x.items():
+                            if isinstance(vv, dict) and "k" in vv:
+                                yield k + "." + kk, vv
+
+
+DISCARDING_ADAPTORS = ("ok", "err", "unwrap_or", "unwrap_or_default", "unwrap_or_else", "is_ok", "is_err", "map", "map_err", "and_then", "or_else")
+
+
+def discarded_values(root, wanted):
+    """Expressions below root for which wanted(node) holds and whose value is thrown away: an expression statement (`e;`), a
+    `let _ = e`, or either of these after adaptors that cannot fail the function (`.ok()`, `.unwrap_or_default()`, ...).
+    Yields (node, how)."""
+    def visit(n, parents):
+        if wanted(n):
+            # climb through adaptors
+            i = len(parents) - 1
+            how = []
+            cur = n
+            while i >= 0:
+                p, slot = parents[i]
+                pk = p.get("k")
+                if pk in ("DropTemps", "Paren", "Use", "Type") and slot == "e":
+                    cur = p
+                    i -= 1
+                    continue
+                if pk == "MethodCall" and slot == "recv" and p.get("name") in DISCARDING_ADAPTORS:
+                    how.append("." + p["name"] + "()")
+                    cur = p
+                    i -= 1
+                    continue
+                break
+            if i >= 0:
+                p, slot = parents[i]
+                pk = p.get("k")
+                if pk in ("Semi",) and slot == "e":
+                    yield n, "".join(how) + ";"
+                elif pk == "Block" and slot == "stmts":
+                    yield n, "".join(how) + ";"
+                elif pk == "Let" and slot == "init" and strip_ref(p.get("pat", {})).get("k") == "Wild":
+                    yield n, "let _ = .." + "".join(how)
+        for slot, c in _children(n):
+            parents.append((n, slot))
+            yield from visit(c, parents)
+            parents.pop()
+    yield from visit(root, [])
